@@ -1148,7 +1148,7 @@ def run(ctx, out):
     samples = []
     features = {}
     profiles = {}
-    n_models = int(os.environ.get("VERIF_C15_MODELS") or 0) or ctx.n(70, 1500)
+    n_models = int(os.environ.get("VERIF_C15_MODELS") or 0) or ctx.n(58, 1500)
     batch = 12
     idx = 0
     tasks = []          # (phase, (ctx, cases, rngs, fixed))
@@ -1165,7 +1165,7 @@ def run(ctx, out):
         tasks.append(("corpus", (ctx, ccases, None, cfixed)))
     # the structured family: one model per reference value kind, then pairs (the same on every run;
     # only the query arguments depend on the seed)
-    family = V.motif_family()
+    family = V.motif_family(io_rotation=ctx.n(ctx.seed, None))
     if os.environ.get("VERIF_C15_MOTIFS"):
         family = [x for x in family if any(w in x[0] for w in os.environ["VERIF_C15_MOTIFS"].split(","))]
     mcases, mrngs = [], []
